@@ -306,3 +306,68 @@ fire('c04-refine-startpoint', 'C04', P, 'Process.DoLocalRefinement',
 twin('c04-refine-local', 'C04', P, 'Process.DoLocalRefinement',
      '        result.bestTrials[0].point.floatVariables = nelder_mead.x\n        result.bestTrials[0].functionValues[0].value = self.problemCalculate(result.bestTrials[0].point.floatVariables)',
      '        xs = nelder_mead.x\n        result.bestTrials[0].point.floatVariables = xs\n        result.bestTrials[0].functionValues[0].value = self.problemCalculate(xs)')
+
+# ----------------------------------------------------------------------------- C06
+fire('c06-relink-swapped', 'C06', SD, 'SearchData.InsertDataItem',
+     '        newDataItem.SetLeft(rightDataItem.GetLeft())\n        rightDataItem.SetLeft(newDataItem)',
+     '        rightDataItem.SetLeft(newDataItem)\n        newDataItem.SetLeft(rightDataItem.GetLeft())', 'R06.1')
+fire('c06-relink-setright', 'C06', SD, 'SearchData.InsertDataItem', '        newDataItem.SetRight(rightDataItem)\n',
+     '        newDataItem.SetLeft(rightDataItem)\n', 'R06.1')
+fire('c06-relink-missing', 'C06', SD, 'SearchData.InsertDataItem', '        newDataItem.GetLeft().SetRight(newDataItem)\n',
+     '', 'R06.1')
+fire('c06-relink-wrong-left', 'C06', SD, 'SearchData.InsertDataItem', 'newDataItem.GetLeft().SetRight(newDataItem)',
+     'rightDataItem.GetLeft().SetRight(newDataItem)', 'R06.1')
+fire('c06-append-twice', 'C06', SD, 'SearchData.InsertDataItem', '        self._allTrials.append(newDataItem)\n',
+     '        self._allTrials.append(newDataItem)\n        self._allTrials.append(newDataItem)\n', 'R06.1')
+fire('c06-append-right', 'C06', SD, 'SearchData.InsertDataItem', 'self._allTrials.append(newDataItem)',
+     'self._allTrials.append(rightDataItem)', 'R06.1')
+fire('c06-lookup-arg', 'C06', SD, 'SearchData.InsertDataItem',
+     'self.FindDataItemByOneDimensionalPoint(newDataItem.GetX())', 'self.FindDataItemByOneDimensionalPoint(0.5)',
+     'R06.1')
+twin('c06-relink-reordered', 'C06', SD, 'SearchData.InsertDataItem',
+     '        newDataItem.SetLeft(rightDataItem.GetLeft())\n        rightDataItem.SetLeft(newDataItem)\n        newDataItem.SetRight(rightDataItem)\n        newDataItem.GetLeft().SetRight(newDataItem)',
+     '        left = rightDataItem.GetLeft()\n        newDataItem.SetRight(rightDataItem)\n        newDataItem.SetLeft(left)\n        left.SetRight(newDataItem)\n        rightDataItem.SetLeft(newDataItem)')
+fire('c06-first-unlinked', 'C06', SD, 'SearchData.InsertFirstDataItem', '        rightDataItem.SetLeft(leftDataItem)\n', '',
+     'R06.2')
+fire('c06-first-wrong-first', 'C06', SD, 'SearchData.InsertFirstDataItem', 'self.__firstDataItem = leftDataItem',
+     'self.__firstDataItem = rightDataItem', 'R06.2')
+fire('c06-delta-swapped', 'C06', M, 'Method.RenewSearchData',
+     'oldpoint.delta = Method.CalculateDelta(newpoint.GetX(), oldpoint.GetX(), self.dimension)',
+     'oldpoint.delta = Method.CalculateDelta(oldpoint.GetX(), newpoint.GetX(), self.dimension)', 'R06.4')
+fire('c06-delta-wrong-left', 'C06', M, 'Method.RenewSearchData',
+     'newpoint.delta = Method.CalculateDelta(oldpoint.GetLeft().GetX(), newpoint.GetX(), self.dimension)',
+     'newpoint.delta = Method.CalculateDelta(oldpoint.GetX(), newpoint.GetX(), self.dimension)', 'R06.4')
+fire('c06-delta-formula', 'C06', M, 'Method.CalculateDelta', 'return pow(rx - lx, 1.0 / dimension)',
+     'return pow(rx - lx, 1.0 / (dimension + 1))', 'R06.4')
+fire('c06-delta-dim', 'C06', M, 'Method.RenewSearchData',
+     'oldpoint.delta = Method.CalculateDelta(newpoint.GetX(), oldpoint.GetX(), self.dimension)',
+     'oldpoint.delta = Method.CalculateDelta(newpoint.GetX(), oldpoint.GetX(), 1)', 'R06.4')
+fire('c06-delta-after-relink', 'C06', M, 'Method.RenewSearchData',
+     '        self.searchData.InsertDataItem(newpoint, oldpoint)',
+     '        self.searchData.InsertDataItem(newpoint, oldpoint)\n        newpoint.delta = Method.CalculateDelta(oldpoint.GetLeft().GetX(), newpoint.GetX(), self.dimension)',
+     'R06.4')
+fire('c06-seed-delta', 'C06', M, 'Method.FirstIteration',
+     'right.delta = Method.CalculateDelta(middle.GetX(), right.GetX(), self.dimension)',
+     'right.delta = Method.CalculateDelta(left.GetX(), right.GetX(), self.dimension)', 'R06.4')
+twin('c06-delta-starstar', 'C06', M, 'Method.CalculateDelta', 'return pow(rx - lx, 1.0 / dimension)',
+     'return (rx - lx) ** (1 / dimension)')
+twin('c06-delta-inline', 'C06', M, 'Method.RenewSearchData',
+     'oldpoint.delta = Method.CalculateDelta(newpoint.GetX(), oldpoint.GetX(), self.dimension)',
+     'oldpoint.delta = pow(oldpoint.GetX() - newpoint.GetX(), 1.0 / self.task.problem.numberOfFloatVariables)')
+fire('c06-insert-skipped', 'C06', M, 'Method.RenewSearchData', '        self.searchData.InsertDataItem(newpoint, oldpoint)',
+     '        if newpoint.GetZ() < oldpoint.GetZ():\n            self.searchData.InsertDataItem(newpoint, oldpoint)',
+     'R06.6')
+fire('c06-insert-twice', 'C06', M, 'Method.RenewSearchData', '        self.searchData.InsertDataItem(newpoint, oldpoint)',
+     '        self.searchData.InsertDataItem(newpoint, oldpoint)\n        self.searchData.InsertDataItem(newpoint, oldpoint)',
+     None)
+fire('c06-insert-elsewhere', 'C06', M, 'Method.UpdateOptimum', 'self.searchData.solution.bestTrials[0] = self.best',
+     'self.searchData.solution.bestTrials[0] = self.best\n        self.searchData.InsertDataItem(point)', 'R06.6')
+fire('c06-seed-no-insert', 'C06', M, 'Method.FirstIteration', '        self.searchData.InsertDataItem(middle, right)\n', '',
+     'R06.6')
+fire('c06-setleft-elsewhere', 'C06', M, 'Method.RenewSearchData', '        self.searchData.InsertDataItem(newpoint, oldpoint)',
+     '        self.searchData.InsertDataItem(newpoint, oldpoint)\n        oldpoint.SetLeft(newpoint.GetLeft())', 'R06.8')
+fire('c06-point-rewritten', 'C06', M, 'Method.UpdateOptimum', 'self.searchData.solution.bestTrials[0] = self.best',
+     'self.searchData.solution.bestTrials[0] = self.best\n        point.point.floatVariables[0] = 0.0', 'R06.8')
+fire('c06-listener-writes-item', 'C06', 'iOpt/output_system/console/console_output.py',
+     'FunctionConsoleFullOutput.printIterPointInfo', 'value = savedNewPoints[0].GetZ()',
+     'value = savedNewPoints[0].GetZ()\n        savedNewPoints[0].functionValues[0].value = round(value, 6)', 'R06.8')
